@@ -291,7 +291,7 @@ proof fn lemma_closed_separates<T: DSet>(ds: &T, i: int, j: int, s: Seq<bool>, a
 
 // default method no type overrides; emitted as a free function (R11) because its contract speaks about orbit functions of the
 // abstract D-set, which a method INSIDE the trait declaration may not mention (Verus: cyclic self-reference)
-//@ begin src/dsets.rs :: trait DSet: Sized :: fn orbit_reps_2d | props=C05
+//@ begin src/dsets.rs :: trait DSet: Sized :: fn orbit_reps_2d | props=C02,C05
 //@ rw R11 /fn orbit_reps_2d\(&self, i: usize, j: usize\)/pub fn orbit_reps_2d<S: DSet>(this: &S, i: usize, j: usize)/
 //@ rw R11 /\bself\b/this/
 //@ rw R16 /-> Vec<usize>/-> (result: Vec<usize>)/
